@@ -562,6 +562,55 @@ func c02Trees(c *Ctx) []gnode {
 			}
 		}
 	}
+	// (5) the long regime: wide stacks (9 and more slices, well past any fixed scratch size) under every root
+	// configuration, all leaves / with an empty-rendering leaf, a nested stack and a Condition among them;
+	// and deep chains (5 and more levels)
+	widths, depths := []int{9, 17, 33}, []int{5, 9, 17}
+	if !c.Quick() {
+		widths, depths = []int{8, 9, 10, 12, 16, 17, 32, 33, 65, 130}, []int{5, 6, 8, 9, 16, 17, 33, 65}
+	}
+	for wi, w := range widths {
+		plain := make([]gnode, w)
+		for i := range plain {
+			plain[i] = leaves[(i+wi)%len(leaves)]
+			if s, ok := plain[i].V.(string); ok && s != "" && !strings.ContainsAny(s, " \t\n\r\u00a0\u3000") {
+				plain[i] = lf(fmt.Sprintf("%s%d", s, i))
+			}
+		}
+		mixed := append([]gnode{}, plain...)
+		mixed[w/2] = childStacks[(wi*5)%len(childStacks)]
+		mixed[w-2] = conds[wi%len(conds)]
+		mixed[1] = lf("")
+		for _, k := range kinds {
+			for ci, cf := range c02Cfgs(k, false) {
+				if c.Quick() && (ci+wi)%2 != 0 {
+					continue
+				}
+				trees = append(trees, with(cf, plain...), with(cf, mixed...), with(gnode{T: "stack", Kind: "AND"}, lf("t"), with(cf, plain...)), with(gnode{T: "stack", Kind: "OR"}, cond("wide", 2, with(cf, mixed...))))
+			}
+		}
+	}
+	for di, d := range depths {
+		for _, k := range kinds {
+			cfs := c02Cfgs(k, false)
+			cur := with(cfs[di%len(cfs)], lf("bottom"), lf("é q"))
+			for lvl := 1; lvl < d; lvl++ {
+				cf := cfs[(lvl+di)%len(cfs)]
+				cf.Kind = kinds[(lvl+di)%len(kinds)]
+				if cf.Kind == "LIST" {
+					cf.Sym = ""
+				} else {
+					cf.Delim = ""
+				}
+				if lvl%4 == 3 {
+					cur = with(cf, lf(lvl), cond("lv", 1+lvl%6, cur))
+				} else {
+					cur = with(cf, cur, lf(fmt.Sprintf("l%d", lvl)))
+				}
+			}
+			trees = append(trees, cur)
+		}
+	}
 	if !c.Quick() {
 		// (4) depth 3: a configured grandchild inside configured children
 		for i, k := range kinds {
